@@ -65,6 +65,7 @@ class Alg:
         self.trig_bases = []     # (poly b, poly sin b, poly cos b)
         self.trig_gens = []      # (Sname, Cname) of generator pairs
         self.inv_gens = []       # (poly d (monic-normalised), gen name)
+        self._inv_cache = {}
         self.node_poly = {}
         self.nonneg = []         # generator names known >= 0 (sqrt, abs)
         self.safe_obligations = []   # (what, poly) : poly must be != 0 / >= 0 etc.
@@ -147,6 +148,14 @@ class Alg:
         a = self.nf(a)
         if a.is_zero:
             return self.R.zero, self.R.one
+        # a = r * |f| :  cos(r|f|) = cos(r f),  sin(r|f|) = sin(r f) * f / |f|
+        for name, (atom, role) in list(self.gen_atom.items()):
+            if atom.kind == "abs":
+                r = self._prop(a, self.gen[name])
+                if r is not None:
+                    f = atom.args[0]
+                    s_, c_ = self.trig(f * self.const(r))
+                    return s_ * f * self.inverse(self.gen[name]), c_
         for (b, S, C) in self.trig_bases:
             r = self._prop(a, b)
             if r is None:
@@ -189,6 +198,22 @@ class Alg:
             n, d = math.isqrt(c.numerator), math.isqrt(c.denominator)
             if n * n == c.numerator and d * d == c.denominator:
                 return self.const(Fraction(n, d))
+        if not a.is_ground:
+            # perfect square argument: sqrt(c^2 f^2) = |c f|
+            try:
+                c0, factors = a.factor_list()
+                cf = Fraction(int(c0.numerator), int(c0.denominator))
+                if cf > 0 and all(e % 2 == 0 for _, e in factors):
+                    n, d = math.isqrt(cf.numerator), math.isqrt(cf.denominator)
+                    if n * n == cf.numerator and d * d == cf.denominator:
+                        root = self.const(Fraction(n, d))
+                        for f, e in factors:
+                            root = root * f ** (e // 2)
+                        return self.abs(root)
+            except EngineError:
+                raise
+            except Exception:
+                pass
         for key, atom in self.atoms.items():
             if atom.kind != "sqrt":
                 continue
@@ -226,46 +251,57 @@ class Alg:
         return g
 
     def inverse(self, d):
-        """polynomial standing for 1/d (d != 0 is recorded as a SAFE obligation)"""
+        """polynomial standing for 1/d (d != 0 is recorded as a SAFE obligation).
+        d is factored; each irreducible factor gets (or reuses) one inverse generator."""
         d = self.nf(d)
         if d.is_zero:
             raise EngineError("division by the zero polynomial")
         if d.is_ground:
             return self.const(1 / self.const_value(d))
-        # try the existing inverse generators: d * I^m == const ?
+        key = d
+        if key in self._inv_cache:
+            return self._inv_cache[key]
+        try:
+            c, factors = d.factor_list()
+        except Exception:
+            c, factors = d.LC, [(d.monic(), 1)]
+        res = self.R.ground_new(1 / c)
+        factors = sorted(factors, key=lambda fe: (len(fe[0]), str(fe[0])))
+        for f, e in factors:
+            res = res * self._inverse_irreducible(f) ** e
+        self._inv_cache[key] = res
+        return res
+
+    def _inverse_irreducible(self, f):
+        lc = f.LC
+        f = f.monic()
+        scale = self.R.ground_new(1 / lc)
+        # 1 / (1/b) = b
+        for (base, name) in self.inv_gens:
+            if f == self.gen[name]:
+                return base * scale
+        for (base, name) in self.inv_gens:
+            if base == f:
+                return self.gen[name] * scale
+        # expressible through existing inverse generators?  f * I^m == const
         for (base, name) in self.inv_gens:
             I = self.gen[name]
-            t = d
-            for m in range(1, 9):
+            t = f
+            for m in range(1, 7):
                 t = self.nf(t * I)
                 if t.is_ground and not t.is_zero:
-                    return I ** m * self.const(1 / self.const_value(t))
-                if len(t) > 4 * len(d) + 8:
+                    return I ** m * self.const(1 / self.const_value(t)) * scale
+                if len(t) > 4 * len(f) + 8:
                     break
-        # products of existing inverse generators (e.g. 1/(rho * sin))
-        if len(self.inv_gens) >= 2:
-            t0 = d
-            for (b1, n1) in self.inv_gens:
-                for (b2, n2) in self.inv_gens:
-                    if n1 >= n2:
-                        continue
-                    for m1 in range(1, 4):
-                        for m2 in range(1, 4):
-                            t = self.nf(t0 * self.gen[n1] ** m1 * self.gen[n2] ** m2)
-                            if t.is_ground and not t.is_zero:
-                                return (self.gen[n1] ** m1 * self.gen[n2] ** m2 *
-                                        self.const(1 / self.const_value(t)))
-        lc = d.LC
-        dm = d.monic()
-        name = self.new_gen(("inv", dm))
-        atom = Atom("inv", (name,), (dm,))
+        name = self.new_gen(("inv", f))
+        atom = Atom("inv", (name,), (f,))
         self.atoms[("inv", name)] = atom
         self.gen_atom[name] = (atom, "inv")
         I = self.gen[name]
-        self.add_relation(dm * I - 1)
-        self.inv_gens.append((dm, name))
-        self.safe_obligations.append(("denominator_nonzero", dm))
-        return I * self.R.ground_new(1 / lc)
+        self.add_relation(f * I - 1)
+        self.inv_gens.append((f, name))
+        self.safe_obligations.append(("denominator_nonzero", f))
+        return I * scale
 
     def opaque(self, kind, *args):
         args = tuple(self.nf(a) for a in args)
